@@ -1583,7 +1583,7 @@ ld rel_error_uncertainty(ChkptView const& v, int nt)
     ld worst = 1;
     for (auto const& r : v.results)
     {
-        if (r.nz == 0 || r.calls < 2) continue;
+        if (r.fin == 0 || r.calls < 2) continue;
         ld const N = r.calls;
         ld const a = r.sumsq / N, b = (r.sum / N) * (r.sum / N);
         ld const d = std::fabs(a - b);
@@ -1601,8 +1601,8 @@ std::vector<ld> reference_rel_errors(ChkptView const& v)
 
     for (auto const& r : v.results)
     {
-        nz += r.nz;
-        if (r.nz != 0)
+        nz += r.fin;   // results without finite calls carry no information
+        if (r.fin != 0)
         {
             ld const N = r.calls;
             ld const var = (r.sumsq - r.sum * r.sum / N) / N / (N - 1);
